@@ -431,6 +431,42 @@ func genC09tag(c *Ctx, i0 int) {
 			}
 			next++
 		}
+		// several pipelined reads outstanding at once under the one tag: the peer answers them in the order
+		// they arrived, each completion is the oldest one's and carries its own data
+		if M := 2 + r.Intn(4); !failed && r.Intn(2) == 0 {
+			first := next
+			for j := 0; j < M; j++ {
+				tag.Read(fid, uint64(next), 1000)
+				next++
+			}
+			var qs []peerReq
+			for len(qs) < M && !failed {
+				select {
+				case q := <-p.reqs:
+					qs = append(qs, q)
+				case <-time.After(5 * time.Second):
+					fail("C09/requests-missing", fmt.Sprintf("peer saw %d of %d pipelined requests", len(qs), M))
+				}
+			}
+			for j := 0; j < M && !failed; j++ {
+				b.Write(reply("ok", qs[j], msize))
+				select {
+				case rq := <-done:
+					want := first + j
+					if rq.Tc == nil || rq.Rc == nil || int(rq.Tc.Offset) != want || !bytes.Equal(rq.Rc.Data, payloadOf(want, msize)) {
+						off := -1
+						if rq.Tc != nil {
+							off = int(rq.Tc.Offset)
+						}
+						fail("C09/own-reply/tag-order", fmt.Sprintf("completion %d of %d pipelined reads under one tag is the request for offset %d (want %d) or carries another request's data", j, M, off, want))
+					}
+					tag.ReqFree(rq)
+				case <-time.After(5 * time.Second):
+					fail("C09/hang", "pipelined request never completed")
+				}
+			}
+			c.count("tag-pipeline")
+		}
 		// now one pipelined read stays outstanding while ordinary calls are made
 		tag.Read(fid, uint64(next), 1000)
 		pipeCaller := next
